@@ -100,6 +100,7 @@ impl PatchSpec {
                     hunks: if p[7] == "-" { vec![] } else { p[7].split(';').map(HunkSpec::parse).collect() } }
     }
     fn direction(&self) -> PatchDirection { if self.dir == 'R' { PatchDirection::Revert } else { PatchDirection::Forward } }
+    pub fn direction_pub(&self) -> PatchDirection { self.direction() }
 
     pub fn build(&self) -> TextFilePatch<'static> {
         let t = line_table();
@@ -132,6 +133,7 @@ impl FileSpec {
         let p: Vec<&str> = s.split(' ').collect();
         FileSpec { deleted: p[0] == "1", existed: p[1] == "1", perms: parse_opt(p[2]), lines: parse_csv(p[3]) }
     }
+    pub fn build_pub(&self) -> ModifiedFile<'static> { self.build() }
     fn build(&self) -> ModifiedFile<'static> {
         let t = line_table();
         ModifiedFile {
